@@ -200,7 +200,7 @@ impl Engine for C20 {
     }
     fn budget(&self, tier: Tier) -> (u32, u32) {
         match tier {
-            Tier::Quick => (16, 1200),
+            Tier::Quick => (16, 12000),
             Tier::Thorough => (16, 25000),
         }
     }
